@@ -1574,6 +1574,13 @@ SoPlexBase<R>& SoPlexBase<R>::operator=(const SoPlexBase<R>& rhs)
          _rationalLUSolverBind = rhs._rationalLUSolverBind;
       }
 
+      // a scaled LP was copied together with the address of the scaler of rhs; let it refer to a scaler of this instance
+      if(_realLP->isScaled())
+      {
+         SPxScaler<R>* scaler = (_scaler != nullptr) ? _scaler : &_scalerBiequi;
+         scaler->attach(*_realLP);
+      }
+
       // copy counters of the persistent-scaling heuristic
       _optimizeCalls = rhs._optimizeCalls;
       _unscaleCalls = rhs._unscaleCalls;
